@@ -1276,3 +1276,68 @@ func reachingFieldStore(g *eng.Graph, info *types.Info, rn *eng.GNode, resV *typ
 	bare = g.Reach(eng.Query{FromEntry: true, Assume: assumed, AvoidEdge: inf, AvoidNode: func(x *eng.GNode) bool { return isStore[x] && x != rn }})[rn]
 	return
 }
+
+// copyAliases groups the local variables of body that are connected by plain copies (`a = b`, also as one position of
+// a parallel assignment or of a declaration): for values of reference kind (pointers, maps, slices, interfaces) the
+// members of a group name the same object wherever the copy was executed. The result tells whether two variables
+// are in one group. The normaliser hands results of an inlined helper over through such copies.
+func copyAliases(info *types.Info, body ast.Node) func(a, b types.Object) bool {
+	parent := map[types.Object]types.Object{}
+	var find func(o types.Object) types.Object
+	find = func(o types.Object) types.Object {
+		if p, ok := parent[o]; ok && p != o {
+			r := find(p)
+			parent[o] = r
+			return r
+		}
+		return o
+	}
+	local := func(e ast.Expr) types.Object {
+		id, ok := ast.Unparen(e).(*ast.Ident)
+		if !ok {
+			return nil
+		}
+		v, isV := info.ObjectOf(id).(*types.Var)
+		if !isV || v.IsField() || (v.Pkg() != nil && v.Parent() == v.Pkg().Scope()) {
+			return nil
+		}
+		switch v.Type().Underlying().(type) {
+		case *types.Pointer, *types.Map, *types.Slice, *types.Interface, *types.Chan, *types.Signature:
+			return v
+		}
+		return nil
+	}
+	union := func(l, r ast.Expr) {
+		a, b := local(l), local(r)
+		if a == nil || b == nil || !types.Identical(a.Type(), b.Type()) {
+			return
+		}
+		ra, rb := find(a), find(b)
+		if ra != rb {
+			parent[ra] = rb
+		}
+	}
+	ast.Inspect(body, func(n ast.Node) bool {
+		switch t := n.(type) {
+		case *ast.AssignStmt:
+			if len(t.Lhs) == len(t.Rhs) && (t.Tok == token.ASSIGN || t.Tok == token.DEFINE) {
+				for i := range t.Lhs {
+					union(t.Lhs[i], t.Rhs[i])
+				}
+			}
+		case *ast.ValueSpec:
+			if len(t.Names) == len(t.Values) {
+				for i := range t.Names {
+					union(t.Names[i], t.Values[i])
+				}
+			}
+		}
+		return true
+	})
+	return func(a, b types.Object) bool {
+		if a == nil || b == nil {
+			return false
+		}
+		return a == b || find(a) == find(b)
+	}
+}
